@@ -568,4 +568,48 @@ theorem contains_partial (hQ : gn_QuickTrueSound) (x y : Grid) (hx : GridInv x) 
   obtain ⟨a, b, c, d, _, _, g⟩ := gn_contains_partial updateGenerators_spec updateCongruences_spec isEmpty_spec hQ x y hx hy hd
   exact ⟨a, b, c, d, g⟩
 
+
+/-! ## clauses the unchanged code violates (open findings)
+
+* KF-C05-9: `project_zero_dim_fails` above.
+* KF-C05-25 (fixed, 1e4d543): the historical witness below (`…_before_fix_fails`).
+* KF-C05-16 (open) / KF-C05-26 (fixed, 963a718) (`relation_with(Constraint)` rewrites later points into parameters inside the `const` object; a
+  reference into a sparse row dangles): the rewriting is modelled as written (`pointToParameter`, `relConLoop`; the driver
+  finds the real post-state outside `invB`), the dangling reference is undefined behaviour of the C++ and cannot be
+  modelled — the tie reports it as `state` + `sem` on the real output. -/
+
+/-- the grid `{3}` of the line, generators only -/
+def kf25Grid : Grid :=
+  { spaceDim := 1, st := { gUp := true }, conDim := 1, con := [], genDim := 1, gen := [{ line := false, e := [1, 3, 0] }], dk := [] }
+/-- the constraint `1 > 0` built in dimension 0 -/
+def kf25Con : Con := { kind := 2, inconsistent := false, tautological := true, e := [1] }
+
+/-- **KF-C05-25, historical** (repaired in /repo by 1e4d543; `relationWithConBeforeFix` is the code before the repair,
+    `relationWithCon` the repaired code, which answers `is_included` here): on the grid `{3}` the
+    strict inequality `1 > 0` of space dimension 0 is answered `is_disjoint` — the ε-coefficient of the constraint row
+    meets the coordinate of the point (`Scalar_Products::sign(c, g)` over the whole row, Grid_public.cc:721) — although every
+    point of the grid satisfies it.  The model `relationWithCon` reproduces the library's answer (tie: 0 `modelret`
+    differences), so the clause "relations with constraints answer according to the set" fails on this input. -/
+theorem relation_with_constraint_strict_lower_dimension_before_fix_fails :
+    GridInv kf25Grid ∧ (relationWithConBeforeFix kf25Grid kf25Con).2 = some { disjoint := true } ∧
+      (relationWithCon kf25Grid kf25Con).2 = some { included := true } ∧
+      kf25Grid.sem ⊆ cn_conSet kf25Con ∧ (kf25Grid.sem).Nonempty := by
+  have hw : GWf kf25Grid.spaceDim kf25Grid.gen := by
+    intro r hr; simp [kf25Grid] at hr; subst hr; rfl
+  have hN : GNorm kf25Grid.spaceDim 1 kf25Grid.gen := by
+    refine ⟨by decide, ⟨_, List.mem_cons_self, rfl, rfl⟩, ?_, ?_, ?_⟩
+    · intro r hr _; simp [kf25Grid] at hr; subst hr; right; rfl
+    · intro r hr _ h0; simp [kf25Grid] at hr; subst hr; simp [Red.get] at h0
+    · intro r hr hl; simp [kf25Grid] at hr; subst hr; cases hl
+  obtain ⟨hI, hs⟩ := gn_inv_gens (g := kf25Grid) (by decide) rfl rfl rfl rfl rfl rfl rfl hw hN
+  refine ⟨hI, by decide, by decide, ?_, ?_⟩
+  · intro x _
+    show (if kf25Con.kind = 0 then evalRow kf25Con.e x = 0 else if kf25Con.kind = 2 then 0 < evalRow kf25Con.e x
+      else 0 ≤ evalRow kf25Con.e x)
+    simp [kf25Con, evalRow_eq, ratRow, dotF, Red.get]
+  · obtain ⟨_, _, hgn⟩ := hI.gwf rfl (by decide) rfl
+    exact lz_gensSet_nonempty hgn |> fun h => by
+      have : kf25Grid.sem = gensSet kf25Grid.spaceDim kf25Grid.gen := lz_sem_of_gUp rfl (by decide) rfl
+      rw [this]; exact h
+
 end C05
